@@ -193,13 +193,16 @@ def spawn(spec, script, args, cwd=None, stdin="", plan=None, env=None, tty=False
                 pass
         if h.master is not None:
             os.close(h.master)
-            os.setsid()
-            try:
-                import fcntl
-                import termios
-                fcntl.ioctl(h.stdin_fd, termios.TIOCSCTTY, 0)
-            except Exception:
-                pass
+            if tty != "noctty":
+                # (tty="noctty": stdin is a terminal, but not the controlling terminal of the command -
+                # Popen(stdin=<pty slave>), `setsid cmd`, a background job)
+                os.setsid()
+                try:
+                    import fcntl
+                    import termios
+                    fcntl.ioctl(h.stdin_fd, termios.TIOCSCTTY, 0)
+                except Exception:
+                    pass
         _child(spec, script, args, cwd, h.stdin_fd, h.out_fd, h.err_fd, h.trace_fd, plan, env, tty)
     h.pid = pid
     if h.master is not None and stdin is not None:
